@@ -2,7 +2,7 @@
 from vf import gen, layout, progs
 from vf.env import guarded_parse, FortranStringReader
 from vf.runner import Result
-from vf.compare import tree_diff
+from vf.compare import tree_diff, name_spellings
 from vf.treeform import class_names
 
 ID = "C05"
@@ -24,7 +24,7 @@ def build(rnd, tier, flags):
     r = gen.R(rnd)
     meta = progs.meta_of(flat)
     std = "f2008" if (meta["f08"] or g.o.f08) else r.pick(["f2003", "f2008"])
-    fo = layout.FixedOpts(trail_blanks=r.pick([0, 0, 30]), wrap=r.pick([72, 72, 72, 60, 40, 30, 20]), comments=r.pick([0, 20]),
+    fo = layout.FixedOpts(semis=r.pick([0, 0, 15, 70]), trail_blanks=r.pick([0, 0, 30]), wrap=r.pick([72, 72, 72, 60, 40, 30, 20]), comments=r.pick([0, 20]),
                           cont_comments=r.pick([0, 40]), blank_lines=r.pick([0, 10]), kwcase=r.chance(40),
                           extra_indent=r.chance(50), lit_cross=r.pick([0, 100]), lit_pad=r.pick([0, 40, 80]),
                           names=gen.ALL_NAMES,
@@ -61,11 +61,22 @@ def evaluate(case):
     if o2.kind != "tree":
         kinds, chunk = progs.isolate_group(case, lambda t: guarded_parse(t, std=std).kind != "tree", key="fixed")
         return Result(False, "reject:%s:%s" % (o2.kind, kinds), nontrivial, labels, {"error": o2.text, "culprit": chunk})
-    d = tree_diff(o1.tree, o2.tree, names_lower=False)
+    d = tree_diff(o1.tree, o2.tree, names_lower=True)
+    if d and d[0].startswith("case-only:"):
+        d = None      # keywords re-cased by the layout itself (kwcase); names are compared with their case below
+    if d is None:
+        known = gen.ALL_NAMES
+        n1 = [s for s in name_spellings(o1.tree) if s.lower() in known]
+        n2 = [s for s in name_spellings(o2.tree) if s.lower() in known]
+        if n1 != n2:
+            k = next((i for i, (a, b) in enumerate(zip(n1, n2)) if a != b), min(len(n1), len(n2)))
+            return Result(False, "name-spelling", nontrivial, labels,
+                          {"free": n1[k:k + 3], "fixed": n2[k:k + 3]}, classes=class_names(o2.tree))
     if d:
         def differs(t):
             o = guarded_parse(t, std=std)
-            return o.kind == "tree" and tree_diff(o1.tree, o.tree) is not None
+            dd = tree_diff(o1.tree, o.tree, names_lower=True) if o.kind == "tree" else None
+            return dd is not None and not dd[0].startswith("case-only:")
         kinds, chunk = progs.isolate_group(case, differs, key="fixed")
         b = "tree:%s:%s" % (d[0], kinds)
         if "blank_at_col72" in feats and "Char_Literal_Constant" in d[0]:
